@@ -206,7 +206,7 @@ impl Table for Madt {
         if level == 0 {
             vec![Ctor::new(2, 1, 2)]
         } else {
-            vec![Ctor::new(2, 1, 2), Ctor::new(0, 0, 0), Ctor::new(1, 1, 1)]
+            vec![Ctor::new(2, 1, 2), Ctor::new(0, 0, 0), Ctor::new(1, 1, 1), Ctor::new(3, 1, 10), Ctor::new(4, 0, 11), Ctor::new(5, 1, 2), Ctor::new(6, 0, 9)]
         }
     }
     fn ctor_fields(&self) -> Vec<FT> {
